@@ -41,7 +41,15 @@ class _Reporting:
         known = [(fid, p) for fid, p, kinds in self.known if not kinds or kind in kinds]
         excl = [_z3.Not(p) for _, p in known]
         q = _z3.And([cond] + excl) if cond is not None else (_z3.And(excl) if excl else _z3.BoolVal(True))
-        m = self.sat_with(q)
+        m = None
+        if self.symbolic and self.zvars:
+            # prefer a small witness: it stays inside S2 (sums far below 2^53), so it replays on the real float64 code
+            for bound in (64, 10 ** 4, 10 ** 8):
+                m = self.sat_with(_z3.And([q] + [v <= bound for v in self.zvars]))
+                if m is not None and m != 'unknown': break
+                m = None
+        if m is None:
+            m = self.sat_with(q)
         if m is None:
             # every failing input of this path is covered by a known finding (or the condition is infeasible)
             if known:
